@@ -1,27 +1,13 @@
 // C04 — finishing or dropping a bar always paints its final state.
-// @file-encodes state::BarState::finish_using_style, state::BarState::draw, state::BarState::drop, draw_target::ProgressDrawTarget::drawable, draw_target::RateLimiter::allow, draw_target::Drawable::state, draw_target::Drawable::draw, draw_target::DrawState::draw_to_term, style::ProgressStyle::format_state
-// @file-assumes BarState built directly (rig) over the abstract screen with a TermLike target whose rate limiter is EXHAUSTED (capacity 0, prev = now, or prev later than now); template "{pos}/{len} {msg}"; Instant::now frozen; str::repeat = fixed-capacity filler; positions/lengths < 100
+// @file-encodes state::BarState::finish_using_style, state::BarState::draw, state::BarState::drop (Drop), draw_target::ProgressDrawTarget::drawable (force bypasses the limiter), draw_target::Drawable::state, draw_target::Drawable::draw, draw_target::ProgressDrawTarget::mark_zombie
+// @file-assumes BarState built directly (rig) over a TermLike target with a rate limiter that REFUSES every ordinary draw (RateLimiter::allow = false: the exhausted limiter of the property; its law is C05's subject); ProgressStyle::format_state replaced by a recorder of the state it is handed (what it renders from that state: C10-C13), DrawState::draw_to_term replaced by its contract on a row stack (C01/C19); Instant::now frozen
 #[cfg(kani)]
 mod verif_c04 {
     use super::verif_rig_state::*;
     use super::*;
-    use crate::draw_target::verif_scr::*;
+    use crate::draw_target::verif_rig_dt::*;
     use crate::style::verif_rig_style::*;
     use crate::verif_common::*;
-
-    struct Exp {
-        b: [u8; 16],
-        n: usize,
-    }
-
-    fn put_num(e: &mut Exp, v: u64) {
-        if v >= 10 {
-            e.b[e.n] = b'0' + (v / 10) as u8;
-            e.n += 1;
-        }
-        e.b[e.n] = b'0' + (v % 10) as u8;
-        e.n += 1;
-    }
 
     fn finish_variant(v: u8) -> ProgressFinish {
         match v {
@@ -33,103 +19,190 @@ mod verif_c04 {
         }
     }
 
-    /// b: rows of the frame painted before; future: the limiter's `prev` lies after `now`
-    fn setup(pos: u64, len: Option<u64>, b: usize, future: bool, on_finish: ProgressFinish) -> (&'static Scr, BarState, Instant) {
-        let scr = leak_scr(16, 4);
-        scr_with_frame(scr, 2, b);
-        let now = mk_instant(1_000_000, 0);
-        let prev = if future { mk_instant(1_000_001, 0) } else { now };
-        let spec = [RigPart::Key("pos"), RigPart::Lit("/"), RigPart::Key("len"), RigPart::Lit(" "), RigPart::Key("msg")];
-        let mut ps = rig_pstate(pos, len, 0, 0);
-        ps.message = TabExpandedString::NoTabs("m0".into());
-        let bs = rig_bar(ps, rig_style_spec(&spec), scr_target_limited(scr, 20, 0, prev, b), on_finish);
-        (scr, bs, now)
-    }
-
-    fn check_final_frame(scr: &Scr, v: u8, pos: u64, len: Option<u64>, b: usize) {
-        // expected text of the last frame
-        let mut e = Exp { b: [0; 16], n: 0 };
-        if v != 2 {
-            let fpos = if v <= 1 { len.unwrap_or(pos) } else { pos };
-            put_num(&mut e, fpos);
-            e.b[e.n] = b'/';
-            e.n += 1;
-            put_num(&mut e, len.unwrap_or(fpos));
-            e.b[e.n] = b' ';
-            e.n += 1;
-            let m: &[u8] = if v == 1 || v == 4 { b"fm" } else { b"m0" };
-            e.b[e.n] = m[0];
-            e.b[e.n + 1] = m[1];
-            e.n += 2;
+    fn setup(pos: u64, len: Option<u64>, b: usize, on_finish: ProgressFinish) -> BarState {
+        unsafe {
+            SLEN = 0;
+            DRAWS = 0;
+            LOG_FLOOR = 2;
+            FS_CALLS = 0;
         }
-        assert!(scr.flushes.get() == 1); // exactly one frame reached the terminal
-        assert!(scr.cap_is(&e.b, e.n));
-        // no remnant of the previous frame; for the clearing variant nothing at all is left
+        stack_push(b'L');
+        stack_push(b'L');
         let mut i = 0;
-        while i < NROWS {
-            assert!(scr.tag(i) != T_OLD);
-            if v == 2 && i >= 3 - b {
-                assert!(scr.is_blank(i));
+        while i < 2 {
+            if i < b {
+                stack_push(b'O');
             }
             i += 1;
         }
+        let mut ps = rig_pstate(pos, len, 0, 0);
+        ps.message = TabExpandedString::NoTabs("m0".into());
+        rig_bar(ps, rig_style_empty(), null_target(16, 8, b), on_finish)
     }
 
-    // @harness id=C04 tier=quick timeout=3000 mem=14
-    // @bounds every ProgressFinish variant via finish_using_style, pos/len < 100 (len known or unknown), previous frame of 0..=2 rows, limiter exhausted (prev = now or in the future): an ordinary draw is skipped, the finishing draw is not
-    #[kani::proof]
-    #[kani::unwind(13)]
-    //@STUBS std now widthascii repeat noterm nomulti rlrefuse noweight
-    fn c04_finish_forces_final_frame() {
+    /// the final frame: exactly one draw; rendered from pos = len for the finish variants / unchanged pos for the abandon
+    /// variants, with the supplied message; no bar line at all for the clearing variant; the old frame is gone
+    fn check_final_frame(v: u8, pos: u64, len: Option<u64>, b: usize) {
+        unsafe {
+            assert!(DRAWS == 1);
+            if v == 2 {
+                assert!(FS_CALLS == 0 && LAST_BARS == 0 && SLEN == 2);
+            } else {
+                assert!(FS_CALLS == 1 && LAST_BARS == 1 && LAST_TEXT == 0 && SLEN == 3);
+                assert!(FS_FINISHED);
+                assert!(FS_LEN == len);
+                assert!(FS_POS == if v <= 1 { len.unwrap_or(pos) } else { pos });
+                assert!(FS_MSG_LEN == 2 && FS_MSG0 == if v == 1 || v == 4 { b'f' } else { b'm' });
+            }
+        }
+        let _ = b;
+    }
+
+    /// concrete finish variant per harness (a symbolic enum of Cow strings makes every string operation on the message a
+    /// symbolic-pointer operation); position, length and the previous frame are symbolic
+    fn finish_case(v: u8) {
         let pos: u64 = kani::any();
         let len: Option<u64> = kani::any();
-        kani::assume(pos < 100 && len.unwrap_or(0) < 100);
         let b: usize = kani::any();
         kani::assume(b <= 2);
-        let future: bool = kani::any();
-        let v: u8 = kani::any();
-        kani::assume(v < 5);
-        let (scr, mut bs, now) = setup(pos, len, b, future, ProgressFinish::AndClear);
-        // the limiter really is exhausted: an ordinary draw paints nothing
-        let _ = bs.draw(false, now);
-        assert!(scr.calls.get() == 0);
-        scr.capture.set(true);
+        let mut bs = setup(pos, len, b, ProgressFinish::AndClear);
+        let now = mk_instant(1_000_000, 0);
+        // the limiter really refuses: an ordinary draw paints nothing
+        assert!(bs.draw(false, now).is_ok());
+        assert!(unsafe { DRAWS } == 0 && unsafe { FS_CALLS } == 0);
         bs.finish_using_style(now, finish_variant(v));
         assert!(bs.state.is_finished());
-        check_final_frame(scr, v, pos, len, b);
-        kani::cover!(v == 2 && b == 2);
-        kani::cover!(v == 1 && len.is_none());
-        kani::cover!(v == 4 && future);
+        check_final_frame(v, pos, len, b);
+        kani::cover!(b == 2 && len.is_none());
+        kani::cover!(b == 0 && len.is_some());
         std::mem::forget(bs);
     }
 
-    // @harness id=C04 tier=thorough timeout=3400 mem=28
-    // @bounds dropping the last owner of an UNFINISHED bar state with every on_finish behaviour = that finish once (same final frame, limiter exhausted); dropping a FINISHED one performs no terminal call
-    #[kani::proof]
-    #[kani::unwind(13)]
-    //@STUBS std now widthascii repeat noterm nomulti rlrefuse noweight
-    fn c04_drop_paints_final_frame() {
+    fn drop_case(v: u8, finished_before: bool) {
         let pos: u64 = kani::any();
         let len: Option<u64> = kani::any();
-        kani::assume(pos < 100 && len.unwrap_or(0) < 100);
         let b: usize = kani::any();
         kani::assume(b <= 2);
-        let v: u8 = kani::any();
-        kani::assume(v < 5);
-        let finished_before: bool = kani::any();
-        let (scr, mut bs, now) = setup(pos, len, b, false, finish_variant(v));
+        let mut bs = setup(pos, len, b, finish_variant(v));
+        let now = mk_instant(1_000_000, 0);
         if finished_before {
-            bs.finish_using_style(now, ProgressFinish::Abandon);
-            let calls = scr.calls.get();
+            // finished explicitly (visibly for v even, cleared for v odd) -- the configured on_finish must not run again
+            bs.finish_using_style(now, if v % 2 == 0 { ProgressFinish::Abandon } else { ProgressFinish::AndClear });
+            let draws = unsafe { DRAWS };
             drop(bs);
-            assert!(scr.calls.get() == calls); // nothing on screen changes
+            assert!(unsafe { DRAWS } == draws); // nothing on screen changes
         } else {
-            scr.capture.set(true);
             drop(bs);
-            check_final_frame(scr, v, pos, len, b);
+            check_final_frame(v, pos, len, b);
         }
-        kani::cover!(finished_before);
-        kani::cover!(!finished_before && v == 2);
-        kani::cover!(!finished_before && v == 0 && len.is_some());
+        kani::cover!(b == 2);
+    }
+
+    // @harness id=C04 tier=quick timeout=1500 mem=6 checks=rust
+    // @bounds finish (finish_using_style), pos/len over u64 (len known or unknown), previous frame of 0..=2 rows, limiter refusing every ordinary draw: the ordinary draw reaches nothing, the finishing draw paints exactly one frame rendered from the final state
+    #[kani::proof]
+    #[kani::unwind(6)]
+    //@STUBS std now widthascii noterm nomulti rlrefuse noweight fsrecord dttcontract
+    fn c04_finish_forces_final_frame() {
+        finish_case(0);
+    }
+
+    // @harness id=C04 tier=quick timeout=1500 mem=6 checks=rust
+    // @bounds finish_with_message (finish_using_style), pos/len over u64 (len known or unknown), previous frame of 0..=2 rows, limiter refusing every ordinary draw: the ordinary draw reaches nothing, the finishing draw paints exactly one frame rendered from the final state
+    #[kani::proof]
+    #[kani::unwind(6)]
+    //@STUBS std now widthascii noterm nomulti rlrefuse noweight fsrecord dttcontract
+    fn c04_finish_with_message_forces_final_frame() {
+        finish_case(1);
+    }
+
+    // @harness id=C04 tier=quick timeout=1500 mem=6 checks=rust
+    // @bounds finish_and_clear (finish_using_style), pos/len over u64 (len known or unknown), previous frame of 0..=2 rows, limiter refusing every ordinary draw: the ordinary draw reaches nothing, the finishing draw paints exactly one frame rendered from the final state
+    #[kani::proof]
+    #[kani::unwind(6)]
+    //@STUBS std now widthascii noterm nomulti rlrefuse noweight fsrecord dttcontract
+    fn c04_finish_and_clear_forces_final_frame() {
+        finish_case(2);
+    }
+
+    // @harness id=C04 tier=quick timeout=1500 mem=6 checks=rust
+    // @bounds abandon (finish_using_style), pos/len over u64 (len known or unknown), previous frame of 0..=2 rows, limiter refusing every ordinary draw: the ordinary draw reaches nothing, the finishing draw paints exactly one frame rendered from the final state
+    #[kani::proof]
+    #[kani::unwind(6)]
+    //@STUBS std now widthascii noterm nomulti rlrefuse noweight fsrecord dttcontract
+    fn c04_abandon_forces_final_frame() {
+        finish_case(3);
+    }
+
+    // @harness id=C04 tier=quick timeout=1500 mem=6 checks=rust
+    // @bounds abandon_with_message (finish_using_style), pos/len over u64 (len known or unknown), previous frame of 0..=2 rows, limiter refusing every ordinary draw: the ordinary draw reaches nothing, the finishing draw paints exactly one frame rendered from the final state
+    #[kani::proof]
+    #[kani::unwind(6)]
+    //@STUBS std now widthascii noterm nomulti rlrefuse noweight fsrecord dttcontract
+    fn c04_abandon_with_message_forces_final_frame() {
+        finish_case(4);
+    }
+
+    // @harness id=C04 tier=quick timeout=1800 mem=7 checks=rust
+    // @bounds dropping an UNFINISHED bar state whose on_finish behaviour is finish = that finish exactly once (limiter refusing); pos/len over u64
+    #[kani::proof]
+    #[kani::unwind(6)]
+    //@STUBS std now widthascii noterm nomulti rlrefuse noweight fsrecord dttcontract finishclone
+    fn c04_drop_unfinished_finish() {
+        drop_case(0, false);
+    }
+
+    // @harness id=C04 tier=thorough timeout=1800 mem=7 checks=rust
+    // @bounds dropping an UNFINISHED bar state whose on_finish behaviour is finish_with_message = that finish exactly once (limiter refusing); pos/len over u64
+    #[kani::proof]
+    #[kani::unwind(6)]
+    //@STUBS std now widthascii noterm nomulti rlrefuse noweight fsrecord dttcontract finishclone
+    fn c04_drop_unfinished_finish_with_message() {
+        drop_case(1, false);
+    }
+
+    // @harness id=C04 tier=quick timeout=1800 mem=7 checks=rust
+    // @bounds dropping an UNFINISHED bar state whose on_finish behaviour is finish_and_clear = that finish exactly once (limiter refusing); pos/len over u64
+    #[kani::proof]
+    #[kani::unwind(6)]
+    //@STUBS std now widthascii noterm nomulti rlrefuse noweight fsrecord dttcontract finishclone
+    fn c04_drop_unfinished_finish_and_clear() {
+        drop_case(2, false);
+    }
+
+    // @harness id=C04 tier=thorough timeout=1800 mem=7 checks=rust
+    // @bounds dropping an UNFINISHED bar state whose on_finish behaviour is abandon = that finish exactly once (limiter refusing); pos/len over u64
+    #[kani::proof]
+    #[kani::unwind(6)]
+    //@STUBS std now widthascii noterm nomulti rlrefuse noweight fsrecord dttcontract finishclone
+    fn c04_drop_unfinished_abandon() {
+        drop_case(3, false);
+    }
+
+    // @harness id=C04 tier=quick timeout=1800 mem=7 checks=rust
+    // @bounds dropping an UNFINISHED bar state whose on_finish behaviour is abandon_with_message = that finish exactly once (limiter refusing); pos/len over u64
+    #[kani::proof]
+    #[kani::unwind(6)]
+    //@STUBS std now widthascii noterm nomulti rlrefuse noweight fsrecord dttcontract finishclone
+    fn c04_drop_unfinished_abandon_with_message() {
+        drop_case(4, false);
+    }
+
+    // @harness id=C04 tier=quick timeout=1800 mem=7 checks=rust
+    // @bounds dropping an already FINISHED bar state (on_finish = finish): nothing is drawn
+    #[kani::proof]
+    #[kani::unwind(6)]
+    //@STUBS std now widthascii noterm nomulti rlrefuse noweight fsrecord dttcontract finishclone
+    fn c04_drop_finished_is_silent() {
+        drop_case(0, true);
+    }
+
+    // @harness id=C04 tier=quick timeout=1800 mem=7 checks=rust
+    // @bounds dropping a bar that was finished-and-cleared explicitly although its on_finish behaviour is finish_with_message: nothing is drawn (the cleared bar does not come back)
+    #[kani::proof]
+    #[kani::unwind(6)]
+    //@STUBS std now widthascii noterm nomulti rlrefuse noweight fsrecord dttcontract finishclone
+    fn c04_drop_cleared_is_silent() {
+        drop_case(1, true);
     }
 }
